@@ -525,4 +525,131 @@ Proof.
 Qed.
 
 End SweepPf.
+
+(* ---------------------------------------------------------------- backward = closed form *)
+Lemma fold_zero : forall z (b : bufs) v,
+  fold_left zero_buf z b v = if mem v z then Some 0 else b v.
+Proof.
+  induction z as [|c z IH]; intros b v; [reflexivity|].
+  cbn [fold_left]. rewrite IH. unfold mem. cbn [existsb]. fold (mem v z).
+  destruct (mem v z); [rewrite orb_true_r; reflexivity|]. rewrite orb_false_r.
+  unfold zero_buf, upd. reflexivity.
+Qed.
+
+Section Main.
+Variable g : arena.
+Variable w : weights A.
+Variable mode : bool.
+Variable root : nat.
+Variable seed : V.
+Hypothesis Hwf : wf g.
+Hypothesis Hok : forall n, node_ok (getn g n).
+Hypothesis Hreq : req (getn g root) = true.
+
+Notation hasfn := (fun n => has_fn (getn g n)).
+
+(* which tensors the ordering loop calls zero_() on (Proofs/DfsProofs.v), given the buffers before the call *)
+Definition zero_char (b : bufs) (z : list nat) : Prop :=
+  forall c, In c z <-> (c <> root /\ reachable g root c /\ req (getn g c) = true /\
+                        (b c = None \/ is_leaf (getn g c) = false)).
+
+Lemma postorder_kids ord : is_postorder g root ord ->
+  forall P n S, rev ord = P ++ n :: S -> forall c, In c (children (getn g n)) -> In c S.
+Proof.
+  intros [Hnd [_ [_ Hbef]]] P n S HL c Hc.
+  assert (Hord : ord = rev S ++ n :: rev P).
+  { rewrite <- (rev_involutive ord), HL, rev_app_distr. cbn [rev]. rewrite <- app_assoc. reflexivity. }
+  assert (Hn : In n ord) by (rewrite Hord; apply in_or_app; right; left; reflexivity).
+  destruct (Hbef n c Hn Hc) as [l1 [l2 [l3 Hb]]].
+  assert (Hb' : ord = (l1 ++ c :: l2) ++ n :: l3) by (rewrite Hb, <- app_assoc; reflexivity).
+  rewrite Hord in Hb'. rewrite Hord in Hnd.
+  destruct (nodup_split_unique n _ _ _ _ Hnd Hb') as [E _].
+  apply in_rev. rewrite E. apply in_or_app. right; left; reflexivity.
+Qed.
+
+Theorem run_sweep_expected ord z (b : bufs) :
+  is_postorder g root ord -> zero_char b z ->
+  exists b', run_sweep A g w mode root seed ord z b = Some (b', filter hasfn (rev ord)) /\
+    forall v, b' v = expected A g w mode root seed b v.
+Proof.
+  intros Hpo Hz.
+  pose proof (postorder_kids ord Hpo) as HLkids.
+  destruct Hpo as [Hnd [[pre Hpre] [Hmem Hbef]]].
+  assert (HLnd : NoDup (rev ord)) by (apply NoDup_rev'; exact Hnd).
+  assert (HinL : forall v, In v (rev ord) <-> reachable g root v).
+  { intros v. rewrite <- in_rev. apply Hmem. }
+  assert (Hfnreq : forall n, has_fn (getn g n) = true -> req (getn g n) = true).
+  { intros n. destruct (Hok n) as [H _]. exact H. }
+  set (b1 := fold_left zero_buf z b).
+  assert (Hb1 : forall v, b1 v = if mem v z then Some 0 else b v) by (intros v; apply fold_zero).
+  assert (Hrootz : mem root z = false).
+  { destruct (mem root z) eqn:E; [|reflexivity]. apply mem_In in E. apply Hz in E. destruct E as [E _]. congruence. }
+  assert (Hb1root : b1 root = b root) by (rewrite Hb1, Hrootz; reflexivity).
+  (* the seed step *)
+  set (b1' := if negb (is_some (b1 root)) || negb (is_leaf (getn g root)) then zero_buf b1 root else b1).
+  assert (Hb1'root : b1' root = Some (leaf_part A g b root)).
+  { unfold b1', leaf_part. rewrite Hb1root.
+    destruct (is_leaf (getn g root)); destruct (b root) as [x|] eqn:Hbr; cbn [is_some negb orb];
+      try (unfold zero_buf; apply upd_same). exact Hb1root. }
+  assert (Hb1'other : forall v, v <> root -> b1' v = b1 v).
+  { intros v Hv. unfold b1'. destruct (negb (is_some (b1 root)) || negb (is_leaf (getn g root))); [|reflexivity].
+    unfold zero_buf. apply upd_other. exact Hv. }
+  set (b2 := upd b1' root (Some (leaf_part A g b root ⊕ seed))).
+  assert (Hseed : seed_root A g root seed b1 = Some b2).
+  { unfold seed_root. fold b1'. rewrite Hb1'root. reflexivity. }
+  set (start := fun v => leaf_part A g b v ⊕ (if root =? v then seed else 0)).
+  set (X := fun v => PV g w root v seed).
+  assert (Hleaf_fn : forall v, has_fn (getn g v) = true -> leaf_part A g b v = 0).
+  { intros v Hv. unfold leaf_part, is_leaf. rewrite Hv, (Hfnreq v Hv). reflexivity. }
+  assert (HLE : forall v, X v = (if root =? v then seed else 0) ⊕
+                              vsum (map (fun n => inflow g w n v (X n)) (rev ord))).
+  { intros v. unfold X. apply last_edge; [exact Hwf|exact HLnd|]. intros n Hn. apply HinL. exact Hn. }
+  assert (HX : forall v, In v (rev ord) -> has_fn (getn g v) = true ->
+             X v = start v ⊕ vsum (map (fun n => inflow g w n v (X n)) (rev ord))).
+  { intros v _ Hv. unfold start. rewrite (Hleaf_fn v Hv), (vadd_0_l A Aok). apply HLE. }
+  assert (Hb2 : forall v, In v (rev ord) -> req (getn g v) = true ->
+             b2 v = Some (start v ⊕ vsum (map (fun m => inflow g w m v (X m)) []))).
+  { intros v Hv Hr. cbn [map Sweep.vsum fold_right]. rewrite vadd_0_r. unfold start, b2.
+    destruct (Nat.eq_dec v root) as [->|Hne].
+    - rewrite upd_same, Nat.eqb_refl. reflexivity.
+    - rewrite upd_other by exact Hne. rewrite Hb1'other by exact Hne.
+      assert (E : (root =? v) = false) by (apply Nat.eqb_neq; auto). rewrite E, vadd_0_r.
+      rewrite Hb1. unfold leaf_part.
+      destruct (mem v z) eqn:Ez.
+      + apply mem_In in Ez. apply Hz in Ez. destruct Ez as [_ [_ [_ [Hn|Hl]]]].
+        * rewrite Hn. destruct (is_leaf (getn g v)); reflexivity.
+        * rewrite Hl. reflexivity.
+      + destruct (is_leaf (getn g v)) eqn:El.
+        * destruct (b v) as [x|] eqn:Hbv; [reflexivity|].
+          exfalso. assert (In v z); [|apply mem_In in H; congruence].
+          apply Hz. split; [exact Hne|]. split; [apply HinL; exact Hv|]. split; [exact Hr|]. left; exact Hbv.
+        * exfalso. assert (In v z); [|apply mem_In in H; congruence].
+          apply Hz. split; [exact Hne|]. split; [apply HinL; exact Hv|]. split; [exact Hr|]. right; exact El. }
+  destruct (sweep_suffix g w mode root Hfnreq (rev ord) HLnd HLkids X start HX (rev ord) [] b2 [] eq_refl Hb2)
+    as [b' [Hfold [Hout [Hnoreq Hreq']]]].
+  exists b'. split.
+  - unfold run_sweep. fold b1. rewrite Hseed. unfold sweep. rewrite Hfold.
+    rewrite app_nil_r, rev_involutive. reflexivity.
+  - intros v. unfold expected.
+    assert (Hb2other : forall u, u <> root -> ~ In u z -> b2 u = b u).
+    { intros u Hu Huz. unfold b2. rewrite upd_other by exact Hu. rewrite Hb1'other by exact Hu.
+      rewrite Hb1. destruct (mem u z) eqn:E; [apply mem_In in E; tauto|reflexivity]. }
+    destruct (reachb g root v) eqn:Hrb.
+    + apply (reachb_iff g root v Hwf) in Hrb. apply HinL in Hrb.
+      destruct (req (getn g v)) eqn:Hr; cbn [andb].
+      * rewrite (Hreq' v Hrb Hr). destruct (releases g mode root v); [reflexivity|].
+        f_equal. rewrite (pathval_PV g w). fold (X v). rewrite (HLE v). unfold start.
+        rewrite (vadd_assoc A Aok). reflexivity.
+      * rewrite (Hnoreq v Hrb Hr). apply Hb2other.
+        -- intros ->. congruence.
+        -- intros Hin. apply Hz in Hin. destruct Hin as [_ [_ [Hr' _]]]. congruence.
+    + cbn [andb]. assert (Hnr : ~ reachable g root v).
+      { intros H. apply (reachb_iff g root v Hwf) in H. congruence. }
+      rewrite Hout by (intros Hin; apply Hnr; apply HinL; exact Hin).
+      apply Hb2other.
+      * intros ->. apply Hnr. constructor.
+      * intros Hin. apply Hz in Hin. destruct Hin as [_ [Hre _]]. tauto.
+Qed.
+
+End Main.
 End Generic.
